@@ -216,7 +216,7 @@ class Emitter:
     # ---------------------------------------------------------------- expressions
     def strip(self, e):
         while e.get('kind') in TRANSPARENT or e.get('kind') == 'ParenExpr':
-            e = kids(e)[-1] if e.get('kind') in ('CXXDefaultArgExpr',) and kids(e) else kids(e)[0]
+            e = kids(e)[-1] if e.get('kind') in ('CXXDefaultArgExpr', 'SubstNonTypeTemplateParmExpr', 'CXXDefaultInitExpr') and kids(e) else kids(e)[0]
         return e
 
     def callee_decl(self, fn):
@@ -283,7 +283,8 @@ class Emitter:
         raise Abort('cast kind ' + str(ck))
     def ex_ParenExpr(self, e): return '(' + self.ex(kids(e)[0]) + ')'
     def ex_MaterializeTemporaryExpr(self, e): return self.ex(kids(e)[0])
-    ex_ExprWithCleanups = ex_ConstantExpr = ex_CXXBindTemporaryExpr = ex_SubstNonTypeTemplateParmExpr = ex_MaterializeTemporaryExpr
+    ex_ExprWithCleanups = ex_ConstantExpr = ex_CXXBindTemporaryExpr = ex_MaterializeTemporaryExpr
+    def ex_SubstNonTypeTemplateParmExpr(self, e): return self.ex(kids(e)[-1])
     def ex_CXXDefaultArgExpr(self, e):
         ks = kids(e)
         if ks: return self.ex(ks[-1])
@@ -500,8 +501,21 @@ class Emitter:
     def arg(self, a, p):
         """argument a bound to parameter decl p (reference parameters take an address)"""
         q = p['type'].get('desugaredQualType', p['type']['qualType']).strip()
+        if a.get('kind') == 'CXXDefaultArgExpr' and not kids(a):
+            d = kids(p)
+            if not d: d = self.find_default(p)
+            if not d: raise Abort('default argument not found for parameter ' + str(p.get('name')))
+            a = d[0]
         if q.endswith('&'): return self.addr(a)
         return self.ex(a)
+
+    def find_default(self, p):
+        # the default may sit on another redeclaration of the same function: search by parameter name + type
+        for fid, n in self.ix.funcs.items():
+            for c in n.get('inner', []):
+                if c.get('kind') == 'ParmVarDecl' and c.get('name') == p.get('name') and c['type']['qualType'] == p['type']['qualType'] and kids(c):
+                    return kids(c)
+        return None
 
     def ex_CXXNewExpr(self, e):
         t = self.ct(e['type'])
